@@ -51,6 +51,9 @@ struct Case {
 	init_variant: usize,
 	clock_speed: f64,
 	steps: Vec<Step>,
+	/// from this step on the clock no longer exists (plain parameters only): a tween still waiting
+	/// for a time on it never starts
+	clock_gone_at: Option<usize>,
 }
 
 /// `Easing::apply` through a mapping (see C19)
@@ -193,8 +196,11 @@ const TIME_SLACK: f64 = 2e-7;
 /// * clock: with the update during which the clock reaches the time, counted whole (at most one
 ///   update early, never late).
 /// Once known, `t_ideal` holds that instant and the hull collapses to a point.
-fn locate_start(a: &mut Active, t_prev: f64, t: f64, clock_speed: f64) {
+fn locate_start(a: &mut Active, t_prev: f64, t: f64, clock_speed: f64, clock_gone: bool) {
 	if a.start_known {
+		return;
+	}
+	if clock_gone && matches!(a.kind, Start::Clock(_)) {
 		return;
 	}
 	match a.kind {
@@ -338,9 +344,12 @@ fn run_typed<C: Codec>(c: &Case) -> Result<(bool, bool, bool), Failure> {
 				// the mock clock shows the time at the end of the update (clocks are advanced
 				// before parameters in every chunk)
 				let ticks_now = c.clock_speed * t;
+				let clock_gone = c.clock_gone_at.map(|g| si >= g).unwrap_or(false);
 				let mut mb = MockInfoBuilder::new();
-				let id = mb.add_clock(true, ticks_now as u64, ticks_now.fract());
-				debug_assert_eq!(id, clock_id);
+				if !clock_gone {
+					let id = mb.add_clock(true, ticks_now as u64, ticks_now.fract());
+					debug_assert_eq!(id, clock_id);
+				}
 				let info = mb.build();
 				let before = p.value();
 				p.update(*dt, &info);
@@ -365,7 +374,14 @@ fn run_typed<C: Codec>(c: &Case) -> Result<(bool, bool, bool), Failure> {
 					ensure!(C::read(now, &now) == C::read(before, &now), "holds-value", "step {si}: value changed from {before:?} to {now:?} without a tween; case {c:?}");
 					continue;
 				};
-				locate_start(a, t_prev, t, c.clock_speed);
+				locate_start(a, t_prev, t, c.clock_speed, clock_gone);
+				// A tween that had already started on the clock when the clock disappeared: kira asks the
+				// clock again at every update, so such a tween stands still from then on (as it does while
+				// its clock is paused; C05's reference models the same for clock-speed tweens). The
+				// property does not say what "elapsed" means once the clock is gone: no claim here.
+				if clock_gone && matches!(a.kind, Start::Clock(_)) && a.start_known {
+					continue;
+				}
 				if a.dur > 0.0 && a.dur < *dt {
 					short_tween = true;
 				}
@@ -547,7 +563,7 @@ fn run_tweener(c: &Case) -> Result<(bool, bool, bool), Failure> {
 					ensure!(got == c.init[0], "holds-value", "step {si}: tweener value {got} changed without a tween; case {c:?}");
 					continue;
 				};
-				locate_start(a, t_prev, t, c.clock_speed);
+				locate_start(a, t_prev, t, c.clock_speed, false);
 				if a.dur > 0.0 && a.dur < *dt {
 					short_tween = true;
 				}
@@ -874,6 +890,7 @@ fn decode(src: &mut Src, tier: Tier) -> Case {
 		init,
 		init_variant,
 		clock_speed,
+		clock_gone_at: if !matches!(ty, Ty::Quat | Ty::Tweener) && src.chance(1, 6) { Some(src.index(steps.len())) } else { None },
 		steps,
 	}
 }
@@ -883,7 +900,7 @@ impl Property for C06 {
 		"C06"
 	}
 	fn rule(&self) -> &'static str {
-		"each case drives one public kira::Parameter<T> (T in f64, f32, Decibels, Panning, PlaybackRate, Mix, ClockSpeed with all unit pairs, Duration, Vec3, Quat) or the tweener modulator through a generated history of set(target, tween) and update(dt) calls: durations 0 / shorter than an update / long, all seven easings with positive powers, starts immediate / delayed / on a mock clock, overlapping set() calls mid-tween, update steps of buffer size, fractions of it, and multiples. After every update the value is checked against start + (target-start)*ease(elapsed/duration) evaluated with an independent easing implementation over the timing window the property grants (exact for immediate starts; one update for delayed and clock starts): held exactly before the start, inside the hull during, exactly the target once the whole window is past the end, never outside [start, target], previous_value/interpolated_value continuous. One case in six instead tweens a live volume (main track, sub-track, sound or volume-control effect) of a DC signal path through the real manager at 8192..48000 Hz with internal buffers 1..128 and callback sizes that are not multiples of the buffer: the output holds the start value before the command, stays inside [start, target], is on the curve at the end of every internal buffer for the audio time elapsed since the command was picked up (one buffer of lag granted to delayed starts) and is exactly the target once the duration has passed; half of the sub-track cases tween the volume of a track that is empty at the time (no sound, no effect, no child) and only play the sound 1..4000 frames later - from then on the output must be on the same curve, counted from the command. One case in 240 drives an f64 parameter through 20 000..150 000 updates of one frame at 44.1..192 kHz and checks every 997th value against the curve at the elapsed audio time (two updates of slack, 1e-9 of the span). Non-trivial = a retarget mid-tween, a tween shorter than one update, a non-linear easing, or (manager cases) a callback size that is not a multiple of the buffer; distinct = distinct decoded choices."
+		"each case drives one public kira::Parameter<T> (T in f64, f32, Decibels, Panning, PlaybackRate, Mix, ClockSpeed with all unit pairs, Duration, Vec3, Quat) or the tweener modulator through a generated history of set(target, tween) and update(dt) calls: durations 0 / shorter than an update / long, all seven easings with positive powers, starts immediate / delayed / on a mock clock (which in one case in six disappears at some step: a tween still waiting for a time on it never starts and holds its value; nothing is claimed about one that had already started), overlapping set() calls mid-tween, update steps of buffer size, fractions of it, and multiples. After every update the value is checked against start + (target-start)*ease(elapsed/duration) evaluated with an independent easing implementation over the timing window the property grants (exact for immediate starts; one update for delayed and clock starts): held exactly before the start, inside the hull during, exactly the target once the whole window is past the end, never outside [start, target], previous_value/interpolated_value continuous. One case in six instead tweens a live volume (main track, sub-track, sound or volume-control effect) of a DC signal path through the real manager at 8192..48000 Hz with internal buffers 1..128 and callback sizes that are not multiples of the buffer: the output holds the start value before the command, stays inside [start, target], is on the curve at the end of every internal buffer for the audio time elapsed since the command was picked up (one buffer of lag granted to delayed starts) and is exactly the target once the duration has passed; half of the sub-track cases tween the volume of a track that is empty at the time (no sound, no effect, no child) and only play the sound 1..4000 frames later - from then on the output must be on the same curve, counted from the command. One case in 240 drives an f64 parameter through 20 000..150 000 updates of one frame at 44.1..192 kHz and checks every 997th value against the curve at the elapsed audio time (two updates of slack, 1e-9 of the span). Non-trivial = a retarget mid-tween, a tween shorter than one update, a non-linear easing, or (manager cases) a callback size that is not a multiple of the buffer; distinct = distinct decoded choices."
 	}
 	fn assumptions(&self) -> Vec<String> {
 		vec![
